@@ -17,7 +17,7 @@ class C01(GProp):
     rule = ('seeded random grammars from every family (primitives, sequencing/choice, repetition, brackets, lists, recovery, '
             'captures, scoped combinators; documented argument preconditions respected) x texts over the FULL alphabet (empty, '
             'leading/trailing filtered tokens, rejected chars, tabs, CR/LF/CRLF, 2-4 byte, wide and zero-width chars; bracket-dense texts for the bracket family) x line '
-            'endings x tab width 1..16 x sink on/off, every case with fmt=1: the initial lexer, every returned lexer, the returned '
+            'endings x tab width 1..255 x plain / modal / literal / matching scanners x drop and keep filters (also hiding brackets and recovery tokens) x sink on/off, every case with fmt=1: the initial lexer, every returned lexer, the returned '
             'error and every collected error are formatted (Display and Debug of the lexer; into_source_error + Display of errors) under '
             'catch_unwind; plus random lexer histories; any PANIC in the implementation\'s output is a violation (and must coincide '
             'with an explicit Panic of the model); non-trivial = case whose text has a non-ASCII/tab/line-break char and whose '
@@ -29,7 +29,7 @@ class C01(GProp):
         r = rng.fork('C01')
         n = 0
         for i in range(3000 if tier == 'quick' else 40000):
-            k = r.below(12)
+            k = r.below(16)
             kinds = ['A', 'B', 'C', 'Comma', 'U', 'Hash']
             if k == 0: g = parsegen.gen_c06(r, 2 + r.below(10))
             elif k == 1: g = c07mod.gen_rep(r, 1 + r.below(3))
@@ -42,15 +42,41 @@ class C01(GProp):
             elif k == 8: g = ['both', ['recover', ['before', 'Semi'], ['one', 'A']], c02mod.gen_list(r)]
             elif k == 9: g = ['ctxpush', 5, ['both', parsegen.gen_c06(r, 4), 'eot']]
             elif k == 10: g = ['both', ['repeat', 0, 'inf', ['any', 'A', 'B', 'U']], ['either', 'eot', 'userfail']]
+            elif k == 11: g = ['unfiltered', ['both', ['maybe', ['pred', ['is', 'Ws']]], parsegen.gen_c06(r, 4)]]
+            elif k == 12:
+                # long token lists (the error display has separate branches for 1, 2, 3, 4 and more expected tokens), every leaf
+                many = r.choice([['A', 'B', 'C', 'Comma'], ['A', 'B', 'C', 'Comma', 'Semi'], ['A', 'B', 'C', 'Comma', 'Semi', 'Hash', 'LP', 'RP', 'LK', 'RK']])
+                g = ['both', ['maybe', ['one', 'X']], [r.choice(['any', 'anyidx']), *many]]
+                if r.chance(1, 2): g = ['recoverdef', ['before', 'Semi'], g]
+            elif k == 13:
+                # up_to / unrecoverable / probes (errors handed back or delivered through pushed transforms) / user failures
+                body = r.choice([['upto', parsegen.gen_item(r, 2), ['Comma', 'Semi']], ['unrec', c08mod.gen_committed(r)],
+                                 ['right', ['probe', 1], ['either', 'userfail', ['one', 'A']]], ['ctxpush', 3, ['recoverdef', ['before', 'Semi'], ['seq', 'A', 'B']]]])
+                g = ['both', ['maybe', ['one', 'B']], body]
+            elif k == 14:
+                # brackets: two kinds, permuted kinds, nested bracket parsers, inner parsers reading past the close, abort sets with bracket tokens
+                ks = r.choice([(['LP', 'LK'], ['RP', 'RK']), (['LK', 'LP'], ['RK', 'RP']), (['LC', 'LP'], ['RC', 'RP']), (['LP', 'LK', 'LC'], ['RP', 'RK', 'RC'])])
+                inner = r.choice([['repeat', 0, 'inf', ['any', 'A', 'B', 'Comma', 'RP', 'RK']], [r.choice(c10mod.VARIANTS), ks[0], ['maybe', ['one', 'A']], ks[1], []],
+                                  ['spanned', ['repeat', 0, 'inf', ['one', 'A']]], c02mod.gen_list(r)])
+                g = [r.choice(c10mod.VARIANTS), ks[0], inner, ks[1], r.choice([[], ['Semi'], ['RP'], ['LK', 'Comma']])]
+            elif k == 15:
+                # captures in varied positions, recovery on a token the filter may hide
+                g = r.choice([['repeat', 0, 'inf', ['both', ['one', 'Comma'], [r.choice(['text', 'spanned']), c14mod.gen_wrapped(r)]]],
+                              ['recover', ['before', 'Hash'], ['spanned', ['seq', 'A', 'B']]],
+                              ['listdef', ['text', ['one', 'A']], 'Comma', ['Semi']]])
             else: g = ['unfiltered', ['both', ['maybe', ['pred', ['is', 'Ws']]], parsegen.gen_c06(r, 4)]]
             t = spangen.random_text(r, FULL, 16 if tier == 'quick' else 30)
-            if k == 2 and r.chance(2, 3):
+            if k in (2, 14) and r.chance(1, 2):
+                # deep well-nested bracket texts with same-kind runs and one perturbation (runs partly closed, then a mismatch)
+                t = c10mod.gen_nested_text(r)[:24]
+            elif k in (2, 14) and r.chance(2, 3):
                 # bracket-dense texts: runs of same-kind open brackets partly closed, then mismatched / missing / extra closes
                 t = spangen.random_text(r, ['lp', 'lk', 'lk', 'lk', 'lc', 'rp', 'rk', 'rk', 'rc', 'a', 'sp', 'semi', 'w3'], 12 if tier == 'quick' else 20)
             n += 1
-            out.append(parsegen.parse_case('c%d' % n, t, g, le=r.choice(['lf', 'cr', 'crlf']), tab=1 + r.below(16),
-                                           scanner=r.choice(['plain', 'plain', 'modal']),
-                                           flt=r.choice([['drop', 'Ws'], ['drop', 'Ws'], 'none', ['drop', 'Ws', 'U']]),
+            out.append(parsegen.parse_case('c%d' % n, t, g, le=r.choice(['lf', 'cr', 'crlf']), tab=r.choice([1 + r.below(16), 1 + r.below(16), 17 + r.below(239)]),
+                                           scanner=r.choice(['plain', 'plain', 'modal', 'literal', 'matching']),
+                                           flt=r.choice([['drop', 'Ws'], ['drop', 'Ws'], 'none', ['drop', 'Ws', 'U'], ['keep', 'A', 'B', 'C', 'Comma', 'Semi', 'LP', 'RP', 'LK', 'RK'],
+                                                         ['drop', 'Ws', 'Hash', 'Semi'], ['drop', 'Ws', 'LP', 'RP']]),
                                            sink=r.below(2), pushed=[1] if r.chance(1, 4) else [], fmt=1, runs=1 + (r.below(3) if r.chance(1, 5) else 0)))
         for i in range(600 if tier == 'quick' else 8000):
             t = spangen.random_text(r, FULL, 16)
